@@ -12,7 +12,7 @@ META = dict(
     text='For every executed sequence: a transfer was requested exactly when the reading target held no or older content, the named '
          'source held the newest version, a writing access left the target OWNED and owner_device, and never more than one OWNED copy '
          'existed. The quick tier enumerates all sequences up to length 8 (2 copies) / 6 (3 copies); the thorough tier all sequences '
-         'of the stated box (length <= 8 over 2 and 3 copies) and length 9 over 3 copies. One recorded finding (owner copy demoted by '
+         'of the stated box (length <= 8 over 2 and 3 copies) and beyond it (length 11 over 2, 9 over 3, 8 over 4 copies). One recorded finding (owner copy demoted by '
          'its own read-only access).',
     note='The harness plays the device layer (version copied from the named source, bumped on writes, readers released) as '
          'device_gpu.c/jdf2c do; no bytes move and no device module exists. Trusts the reference model of the harness.',
@@ -52,7 +52,8 @@ def run(ctx):
         enum('rel', 2, 8, 0); enum('rel', 2, 8, 1)
         enum('rel', 3, 8, 0, 8); enum('rel', 3, 8, 1, 2)
         enum('rel', 3, 9, 0, 24)
-        enum('rel', 2, 10, 0, 4)
+        enum('rel', 2, 11, 0, 12)
+        enum('rel', 3, 9, 1, 4)
         enum('rel', 4, 8, 0, 16)
         enum('asan', 2, 8, 0); enum('asan', 3, 7, 0, 4); enum('asan', 3, 6, 1)
         for i in range(4):
